@@ -59,7 +59,9 @@ pub fn bits(h: Hand) -> u64 {
     u64::from(h)
 }
 pub fn board_bits(g: &Game) -> u64 {
-    bits(Hand::from(g.board()))
+    let gg = *g;
+    // `Hand::from(Board)` asserts on a corrupt board: u64::MAX marks it
+    rpharness::catch(move || bits(Hand::from(gg.board()))).unwrap_or(u64::MAX)
 }
 
 pub fn act_tok(a: &Action) -> String {
@@ -98,7 +100,7 @@ pub fn turn_tok(t: Turn) -> String {
 }
 
 /// `pot stack0 stack1 stake0 stake1 spent0 spent1 <st0><st1> ticker street turn board L=<legal>`
-pub fn state_line(g: &Game) -> String {
+fn state_line_raw(g: &Game) -> String {
     let s = g.verif_seats();
     let legal = g.legal().iter().map(legal_tok).collect::<Vec<_>>().join(",");
     format!(
@@ -112,13 +114,20 @@ pub fn state_line(g: &Game) -> String {
 /// `state_line` of a state that may be corrupt (reached through a transition that should not
 /// exist): rendering must not take the harness down
 pub fn safe_state_line(g: &Game) -> String {
+    state_line(g)
+}
+
+/// canonical state line; never panics: a state whose accessors panic (`legal()` asserting, a
+/// corrupt board …) is rendered as far as possible and marked
+pub fn state_line(g: &Game) -> String {
     let gg = *g;
-    rpharness::catch(move || state_line(&gg)).unwrap_or_else(|| {
+    rpharness::catch(move || state_line_raw(&gg)).unwrap_or_else(|| {
         let gg = *g;
         rpharness::catch(move || {
             let s = gg.verif_seats();
-            format!("corrupt state: pot {} stacks [{}, {}] stakes [{}, {}] spent [{}, {}] ticker {} (rendering the rest panics)",
-                gg.pot(), s[0].1, s[1].1, s[0].2, s[1].2, s[0].3, s[1].3, gg.verif_ticker())
+            let t = { let g3 = gg; rpharness::catch(move || turn_tok(g3.turn())).unwrap_or("turn-panics".into()) };
+            format!("corrupt state: pot {} stacks [{}, {}] stakes [{}, {}] spent [{}, {}] ticker {} turn {} (rendering the rest panics)",
+                gg.pot(), s[0].1, s[1].1, s[0].2, s[1].2, s[0].3, s[1].3, gg.verif_ticker(), t)
         }).unwrap_or_else(|| "corrupt state (every accessor panics)".into())
     })
 }
@@ -284,10 +293,31 @@ pub fn offered(g: &Game, rng: &mut Rng) -> Hand {
     h
 }
 
+/// panic-free views of the engine (None = the call panicked)
+pub fn try_turn(g: &Game) -> Option<Turn> {
+    let gg = *g;
+    rpharness::catch(move || gg.turn())
+}
+pub fn try_legal(g: &Game) -> Option<Vec<Action>> {
+    let gg = *g;
+    rpharness::catch(move || gg.legal())
+}
+pub fn try_apply(g: &Game, a: Action) -> Option<Game> {
+    let gg = *g;
+    rpharness::catch(move || gg.apply(a))
+}
+pub fn try_allowed(g: &Game, a: &Action) -> Option<bool> {
+    let (gg, aa) = (*g, *a);
+    rpharness::catch(move || gg.is_allowed(&aa))
+}
+
+/// something the engine did to itself during a walk: (class, input, expected, got)
+pub type Issue = (String, String, String, String);
+
 /// every action the engine should accept at a choice node: legal() plus every raise size
 pub fn menu(g: &Game) -> Vec<Action> {
     let mut v = vec![];
-    for a in g.legal() {
+    for a in try_legal(g).unwrap_or_default() {
         match a {
             Action::Raise(lo) => {
                 let hi = g.to_shove() - 1;
@@ -306,26 +336,66 @@ pub fn menu(g: &Game) -> Vec<Action> {
 /// one random line of play on the real engine. `style`: 0 uniform over kinds, 1 passive,
 /// 2 min-raise war, 3 shove-happy, 4 uniform over (kind, amount).
 /// Draws: the deal's forced street cards, or (one time in four) the engine's own offered draw.
-/// Returns the actions and the states (states[0] = root).
+/// Returns the actions and the states (states[0] = root) and what the engine did to itself on the
+/// way. Never panics: every call into the engine goes through `catch`; an action from the
+/// engine's own `legal()` (or a raise size inside its own range, or its own offered draw) that
+/// `apply` refuses is recorded as an issue and the walk goes on with another action.
 pub fn random_history(rng: &mut Rng, deal: &Deal, style: u64) -> (Vec<Action>, Vec<Game>) {
+    let (h, s, _) = random_history_checked(rng, deal, style);
+    (h, s)
+}
+
+pub fn random_history_checked(rng: &mut Rng, deal: &Deal, style: u64) -> (Vec<Action>, Vec<Game>, Vec<Issue>) {
+    let mut issues: Vec<Issue> = vec![];
     let mut g = root_with(deal.h0, deal.h1);
-    let mut hist = vec![];
+    let mut hist: Vec<Action> = vec![];
     let mut states = vec![g];
     let mut own_draws = false;
-    for _ in 0..400 {
-        let a = match g.turn() {
+    let at = |hist: &[Action]| format!("game {} {} | {}", deal.h0, deal.h1, hist_tok(hist));
+    'walk: for _ in 0..400 {
+        let turn = match try_turn(&g) {
+            Some(t) => t,
+            None => {
+                issues.push(("turn-panics".into(), at(&hist), "a turn".into(), "panic".into()));
+                break;
+            }
+        };
+        // candidate actions in order of preference; the first one the engine applies is taken
+        let mut tries: Vec<Action> = vec![];
+        match turn {
             Turn::Terminal => break,
             Turn::Chance => {
-                let st = g.street() as usize;
+                let st = { let gg = g; rpharness::catch(move || gg.street() as usize).unwrap_or(0).min(2) };
                 if own_draws || rng.chance(1, 4) {
                     own_draws = true; // forced cards may already be on the board: stay with the engine's offers
-                    Action::Draw(offered(&g, rng))
+                    let (gg, mut r2) = (g, rng.fork());
+                    match rpharness::catch(move || offered(&gg, &mut r2)) {
+                        Some(h) => tries.push(Action::Draw(h)),
+                        None => issues.push(("offered-draw-panics".into(), at(&hist), "cards".into(), "panic".into())),
+                    }
+                    let (gg, mut r2) = (g, rng.fork());
+                    if let Some(h) = rpharness::catch(move || offered(&gg, &mut r2)) {
+                        tries.push(Action::Draw(h));
+                    }
                 } else {
-                    Action::Draw(hand(deal.streets[st]))
+                    tries.push(Action::Draw(hand(deal.streets[st])));
                 }
+                let full = bits(hand(Hand::mask()));
+                let in_play = board_bits(&g) | deal.h0 | deal.h1;
+                tries.push(Action::Draw(hand(rng.cards(if st == 0 { 3 } else { 1 }, full & !in_play))));
             }
             Turn::Choice(_) => {
-                let legal = g.legal();
+                let legal = match try_legal(&g) {
+                    Some(l) if !l.is_empty() => l,
+                    Some(_) => {
+                        issues.push(("legal-empty-at-choice-node".into(), at(&hist), "a non-empty menu".into(), "[]".into()));
+                        break;
+                    }
+                    None => {
+                        issues.push(("legal-panics".into(), at(&hist), "a menu".into(), "panic".into()));
+                        break;
+                    }
+                };
                 let pick_kind = |rng: &mut Rng, want: &[u8]| -> Action {
                     // want: preference list of kinds (0 raise 1 shove 2 call 3 fold 4 check)
                     for w in want {
@@ -336,17 +406,27 @@ pub fn random_history(rng: &mut Rng, deal: &Deal, style: u64) -> (Vec<Action>, V
                     }
                     legal[rng.below(legal.len() as u64) as usize]
                 };
+                let stack = g.verif_seats()[match turn { Turn::Choice(p) => p.min(1), _ => 0 }].1;
                 let a = match style {
                     1 => if rng.chance(4, 5) { pick_kind(rng, &[4, 2]) } else { legal[rng.below(legal.len() as u64) as usize] },
                     2 => if rng.chance(5, 6) { pick_kind(rng, &[0, 2, 4]) } else { pick_kind(rng, &[2, 4]) },
                     3 => if rng.chance(1, 3) { pick_kind(rng, &[1]) } else { legal[rng.below(legal.len() as u64) as usize] },
-                    4 => { let m = menu(&g); m[rng.below(m.len() as u64) as usize] }
+                    4 => {
+                        // uniform over (kind, amount): legal() with Raise(lo) expanded to lo..=stack-1
+                        let mut m = vec![];
+                        for a in legal.iter() {
+                            match a {
+                                Action::Raise(lo) => { let mut x = *lo; while x <= stack - 1 { m.push(Action::Raise(x)); x += 1; } if *lo > stack - 1 { m.push(*a); } }
+                                a => m.push(*a),
+                            }
+                        }
+                        m[rng.below(m.len() as u64) as usize]
+                    }
                     _ => legal[rng.below(legal.len() as u64) as usize],
                 };
-                match a {
-                    Action::Raise(lo) if style != 2 => {
-                        let hi = g.to_shove() - 1;
-                        // min, max, pot-ish or uniform
+                let a = match a {
+                    Action::Raise(lo) if style != 2 && style != 4 && lo <= stack - 1 => {
+                        let hi = stack - 1;
                         let x = match rng.below(5) {
                             0 => lo,
                             1 => hi,
@@ -357,14 +437,36 @@ pub fn random_history(rng: &mut Rng, deal: &Deal, style: u64) -> (Vec<Action>, V
                         Action::Raise(x)
                     }
                     a => a,
+                };
+                tries.push(a);
+                // fall-backs: the rest of the engine's own menu, in a rotated order
+                let k = rng.below(legal.len() as u64) as usize;
+                for i in 0..legal.len() {
+                    let b = legal[(i + k) % legal.len()];
+                    if b != a { tries.push(b); }
                 }
             }
-        };
-        g = g.apply(a);
-        hist.push(a);
-        states.push(g);
+        }
+        for a in tries {
+            match try_apply(&g, a) {
+                Some(child) => {
+                    g = child;
+                    hist.push(a);
+                    states.push(g);
+                    continue 'walk;
+                }
+                None => {
+                    let mut h2 = hist.clone();
+                    h2.push(a);
+                    let from_menu = try_legal(&g).map_or(false, |l| l.contains(&a));
+                    let class = if from_menu { "engine-rejects-its-own-legal-action" } else if matches!(a, Action::Draw(_)) { "engine-rejects-a-well-formed-deal" } else { "engine-rejects-an-action-inside-its-own-range" };
+                    issues.push((class.into(), at(&h2), format!("apply succeeds ({} is on legal() / inside the range legal() announces)", act_tok(&a)), "panic".into()));
+                }
+            }
+        }
+        break; // nothing the engine offers can be applied: the walk ends here
     }
-    (hist, states)
+    (hist, states, issues)
 }
 
 pub fn kind_name(a: &Action) -> &'static str {
@@ -379,18 +481,21 @@ pub fn kind_name(a: &Action) -> &'static str {
     }
 }
 pub fn street_name(g: &Game) -> &'static str {
-    match g.street() as isize {
+    let gg = *g;
+    match rpharness::catch(move || gg.street() as isize).unwrap_or(9) {
         0 => "pref",
         1 => "flop",
         2 => "turn",
-        _ => "rive",
+        3 => "rive",
+        _ => "street-panics",
     }
 }
 pub fn turn_kind(g: &Game) -> &'static str {
-    match g.turn() {
-        Turn::Terminal => "terminal",
-        Turn::Chance => "chance",
-        Turn::Choice(_) => "choice",
+    match try_turn(g) {
+        Some(Turn::Terminal) => "terminal",
+        Some(Turn::Chance) => "chance",
+        Some(Turn::Choice(_)) => "choice",
+        None => "turn-panics",
     }
 }
 
@@ -398,5 +503,6 @@ pub fn turn_kind(g: &Game) -> &'static str {
 pub fn betting_key(g: &Game) -> (i16, [(u8, i16, i16, i16); 2], usize, u8) {
     let s = g.verif_seats();
     let f = |i: usize| (state_char(s[i].0) as u8, s[i].1, s[i].2, s[i].3);
-    (g.pot(), [f(0), f(1)], g.verif_ticker(), g.street() as isize as u8)
+    let gg = *g;
+    (g.pot(), [f(0), f(1)], g.verif_ticker(), rpharness::catch(move || gg.street() as isize as u8).unwrap_or(9))
 }
